@@ -188,6 +188,11 @@ PIPELINES = {
     "self_join": lambda t, u: t >> pdt.join(t >> pdt.alias("t2") >> pdt.select(pdt.C.i64, pdt.C.s), "i64", "inner"),
     "union_all": lambda t, u: (t >> pdt.select(t.i64, t.s)) >> pdt.union(u >> pdt.select(u.s, u.i64)),
     "union_distinct_then": lambda t, u: (t >> pdt.select(t.i64)) >> pdt.union(u >> pdt.select(u.i64), distinct=True) >> pdt.filter(pdt.C.i64 > 0) >> pdt.arrange(pdt.C.i64),
+    "union_subquery_right": lambda t, u: (t >> pdt.select(t.i64, t.s)) >> pdt.union((lambda su: su >> pdt.filter(su.i64 > 1))(u >> pdt.select(u.i64, u.s) >> pdt.arrange(u.i64) >> pdt.slice_head(3) >> pdt.alias("su"))),
+    "union_subquery_right_reordered": lambda t, u: (t >> pdt.select(t.i64, t.s)) >> pdt.union((lambda su: su >> pdt.filter(su.i64 > 1))(u >> pdt.select(u.s, u.i64) >> pdt.arrange(u.i64) >> pdt.slice_head(3) >> pdt.alias("su"))),
+    "union_subquery_left": lambda t, u: (lambda st: st >> pdt.mutate(k=st.i64 + 1) >> pdt.select(st.i64, st.s))(t >> pdt.arrange(t.i64) >> pdt.slice_head(3) >> pdt.alias("st")) >> pdt.union(u >> pdt.select(u.i64, u.s)),
+    "union_of_unions": lambda t, u: ((t >> pdt.select(t.i64)) >> pdt.union(u >> pdt.select(u.i64))) >> pdt.union((u >> pdt.alias("u2") >> pdt.select(pdt.C.i64)), distinct=True),
+    "join_subquery_right": lambda t, u: t >> pdt.join((lambda su: su >> pdt.filter(su.i64 > 1))(u >> pdt.mutate(r=pdt.row_number(arrange=u.i64)) >> pdt.alias("su")), "i64", "left"),
     "rename_overwrite": lambda t, u: t >> pdt.rename({"i64": "s", "s": "i64"}) >> pdt.mutate(s=t.s + "x", fresh=t.i64),
     "horizontal_and_isin": lambda t, u: t >> pdt.mutate(mx=pdt.max(t.i64, t.i32, 3), co=pdt.coalesce(t.f64, t.f32, 0.0), ii=t.s.is_in("a", "b'", None), cl=t.i64.clip(0, 10), rd=t.f64.round(-1)),
     "datetime_ops": lambda t, u: t >> pdt.mutate(y=t.dt.dt.year(), dow=t.d.dt.day_of_week(), dd=(t.dt - t.dtb).dur.days(), d2=t.dt.cast(pdt.Date()), s2=t.d.cast(pdt.String())),
